@@ -356,18 +356,21 @@ theorem deref_valPB {h : CHeap} (hp : HP h) {v : VCell} (hpl : plainGlob v = tru
 /-! ## the law of the unmodelled operations -/
 
 /-- **What the two clauses need from the operations that are parameters of the concrete model** (`ExtOps`; a
-    parameter, not an axiom): given a heap satisfying `HP` and arguments that are values not pointing to entry
+    parameter, not an axiom): given a heap satisfying `HP` and `LF` (lambda cells are not on the free list: without
+    that premise no ALLOCATING builtin satisfies the law — `Heap::alloc` could hand out the address of a lambda cell
+    some closure refers to, see `Lemmas/ListExtProc.lean: cons_breaks_hp`; `LF` is a clause of the invariant `CInvG`
+    and is in scope at every use of this law) and arguments that are values not pointing to entry
     code, the generic builtins, `eval`'s compiler and VPUSH's push create no entry code (`EShr`: the lambda `eval`
     compiles is procedure code, `ENTER … RET`), return a heap satisfying `HP` — no closure over entry code, no
     pointer to entry code stored anywhere — and a result that does not lead to entry code (`valPB`: the value is
     then stored by `maybe_put`). -/
 structure ExtProc (ext : ExtOps) : Prop where
-  eval : ∀ (h : CHeap) (id : Nat) (args : List VCell) (h' : CHeap) (v : VCell), HP h →
+  eval : ∀ (h : CHeap) (id : Nat) (args : List VCell) (h' : CHeap) (v : VCell), HP h → LF h →
     (∀ a ∈ args, plainGlob a = true ∧ neB h a = true) →
     ext.builtinEval h id args = .ok (h', v) → HP h' ∧ EShr h h' ∧ valPB h' v = true
-  compile : ∀ (h : CHeap) (d : VCell) (h' : CHeap) (v : VCell), HP h → valPB h d = true →
+  compile : ∀ (h : CHeap) (d : VCell) (h' : CHeap) (v : VCell), HP h → LF h → valPB h d = true →
     ext.compileEval h d = .ok (h', v) → HP h' ∧ EShr h h' ∧ valPB h' v = true
-  vpush : ∀ (h : CHeap) (vec a : VCell) (h' : CHeap), HP h → plainGlob a = true →
+  vpush : ∀ (h : CHeap) (vec a : VCell) (h' : CHeap), HP h → LF h → plainGlob a = true →
     neB h a = true → ext.vectorPush h vec a = .ok h' → HP h' ∧ EShr h h'
 
 end Marwood.Lemmas.Good
